@@ -340,10 +340,10 @@ fn new_shadow(ties: bool) -> Shadow {
 /// own / a foreign row, move between rooms, nested sub-entities under a changed and under an UNCHANGED
 /// parent, with inherited and explicit rooms, reference replacement and removal, node deletion, reference
 /// deletion (existing and non-existing reference), reference deletion on the room row.
-pub fn c01_case(g: &mut Gen, id: u64, w: &mut impl Write, long: bool) {
+pub fn c01_case(g: &mut Gen, id: u64, w: &mut impl Write, long: bool, peer: bool) {
     let keys = 6u64;
-    let dmax: i64 = if long { 24 } else { 14 };
-    writeln!(w, "case id={} keys={} dmax={} mode=fn", id, keys, dmax).unwrap();
+    let dmax: i64 = if peer { 44 } else if long { 24 } else { 14 };
+    writeln!(w, "case id={} keys={} dmax={} mode=fn{}", id, keys, dmax, if peer { " peer=1" } else { "" }).unwrap();
     let nrooms = 2 + g.below(2) as u64;
     let mut shadows: Vec<Shadow> = (0..nrooms).map(|_| new_shadow(false)).collect();
     let mut d: i64 = 1;
@@ -393,6 +393,9 @@ pub fn c01_case(g: &mut Gen, id: u64, w: &mut impl Write, long: bool) {
     // a few rows to work on, created by keys that hold a right
     d += 1;
     for _ in 0..(2 + g.below(3)) {
+        if peer {
+            d += 1;
+        }
         let room = g.below(nrooms as usize) as u64;
         let k = *g.pick(&writers[room as usize]);
         let e = if g.chance(2, 3) { 1 } else { 1 + g.below(3) };
@@ -402,7 +405,10 @@ pub fn c01_case(g: &mut Gen, id: u64, w: &mut impl Write, long: bool) {
         rows.push((h, e, Some(room), k));
     }
     for _ in 0..steps {
-        if g.chance(2, 3) && d < dmax {
+        if peer {
+            // C12: every operation has its own date (rows of one millisecond are tie-broken by signature bytes)
+            d += 1;
+        } else if g.chance(2, 3) && d < dmax {
             d += 1 + g.below(2) as i64;
             if d > dmax {
                 d = dmax;
@@ -586,7 +592,28 @@ pub fn gen_c01(seed: u64, n: usize, out: &str, long: bool) {
     let mut g = Gen::new(seed);
     let mut w = std::io::BufWriter::new(std::fs::File::create(out).unwrap());
     for id in 0..n {
-        c01_case(&mut g, id as u64, &mut w, long);
+        c01_case(&mut g, id as u64, &mut w, long, false);
+    }
+    w.flush().unwrap();
+}
+
+/// C12: the same operations, each also replayed as the rows and records a peer would receive
+pub fn gen_c12(seed: u64, n: usize, out: &str, long: bool) {
+    let mut g = Gen::new(seed);
+    let mut buf: Vec<u8> = vec![];
+    for id in 0..n {
+        c01_case(&mut g, id as u64, &mut buf, long, true);
+    }
+    // after every room mutation: the definition held locally and by the peer (the property's precondition)
+    let mut w = std::io::BufWriter::new(std::fs::File::create(out).unwrap());
+    for line in String::from_utf8(buf).unwrap().lines() {
+        writeln!(w, "{}", line).unwrap();
+        if line.starts_with("rmut ") {
+            if let Some(r) = line.split_whitespace().find_map(|t| t.strip_prefix("r=")) {
+                writeln!(w, "robs r={}", r).unwrap();
+                writeln!(w, "pobs r={}", r).unwrap();
+            }
+        }
     }
     w.flush().unwrap();
 }
